@@ -45,9 +45,8 @@ def ensure(builds=('REL', 'SEC', 'DBG'), quiet=True):
     if not need: return out
     os.makedirs(out, exist_ok=True)
     # remove stale build directories (keep disk use bounded)
-    for d in os.listdir(root):
-        p = os.path.join(root, d)
-        if d != hh and d != 'smoke' and os.path.isdir(p) and len(d) == 16: shutil.rmtree(p, ignore_errors=True)
+    olds = sorted([os.path.join(root, d) for d in os.listdir(root) if d != hh and len(d) == 16 and os.path.isdir(os.path.join(root, d))], key=os.path.getmtime, reverse=True)
+    for p in olds[int(os.environ.get('VERIF_KEEP_BUILDS', '3')):]: shutil.rmtree(p, ignore_errors=True)
     jobs = []
     cxx = ['g++', '-std=c++17', '-O2', '-g1', '-fno-pie', '-I' + os.path.join(REPO, 'include'), '-I' + SIM, '-Wall', '-Wno-unused-parameter']
     for s in SIM_SRCS_COMMON:
